@@ -1,5 +1,7 @@
 """C06 -- combining simulation results is independent of how repetitions were
 grouped."""
+import types
+
 import numpy as np
 
 from pysym import REPO, repo_module
@@ -20,7 +22,7 @@ EXPLANATION = (
     'merge(a,merge(b,c)); merge leaves its operand unchanged -- these give '
     'partition and association independence for histories of any length. '
     '(2) Directly: every composition of a symbolic observation sequence of '
-    'length <=3/4 into contiguous chunks x every merge tree x merging into a '
+    'length <=3/5 into contiguous chunks x every merge tree x merging into a '
     'fresh empty result, compared field by field (value, total, update count, '
     'mean, variance, get_result, accumulated lists) with one object that saw '
     'the whole sequence and with an oracle written from the definition '
@@ -146,14 +148,38 @@ def new_result(Rm, typ, acc, name='r'):
     return Rm.Result(name, CODE[typ], acc)
 
 
-def arb_result(mk, Rm, tag, typ, acc, nlist=1, name='r'):
+_CHOICE_OK = {}
+
+
+def choice_update_works(Rm):
+    """does a CHOICETYPE result accept an observation at all?  If not, the
+    never-updated state is the only CHOICE state reachable through the public
+    API and arbitrary CHOICE states are restricted to it."""
+    k = id(Rm)
+    if k not in _CHOICE_OK:
+        try:
+            new_result(Rm, 'CHOICE', False).update(0)
+            _CHOICE_OK[k] = True
+        except Exception:
+            _CHOICE_OK[k] = False
+    return _CHOICE_OK[k]
+
+
+def arb_result(mk, Rm, tag, typ, acc, nlist=1, name='r', nmin=0):
     """a Result in an arbitrary (symbolic) state, built by the real
     constructor and then filled attribute by attribute"""
     r = new_result(Rm, typ, acc, name)
+    if typ == 'CHOICE' and not choice_update_works(Rm):
+        if mk.sym:
+            note = ('CHOICETYPE update raises: CHOICE states restricted to the '
+                    'never-updated one (the only reachable state)')
+            if note not in mk.ctx.notes:
+                mk.ctx.notes.append(note)
+        return r
     if not mk.sym and mk.api:
         # reachable state: 0..3 update() calls with random observations
         rng, calls = mk.rng, []
-        for _ in range(rng.randint(0, 3)):
+        for _ in range(rng.randint(nmin, 3)):
             if typ == 'CHOICE':
                 o = (rng.randint(0, K - 1), None)
             elif typ == 'RATIO':
@@ -181,7 +207,7 @@ def arb_result(mk, Rm, tag, typ, acc, nlist=1, name='r'):
     if typ in ('SUM', 'RATIO'):
         r._result_sum = mk.real(tag + '_rs')
         r._result_squared_sum = mk.real(tag + '_rss')
-    r.num_updates = mk.int(tag + '_n', 0)
+    r.num_updates = mk.int(tag + '_n', nmin)
     if acc:
         if typ == 'CHOICE':
             r._value_list = [mk.int('%s_vl%d' % (tag, i), 0, K - 1)
@@ -581,10 +607,13 @@ def scen_sets(mk, cfg, rep):
 def scen_combine(mk, cfg, rep):
     Rm, Pm = repo_module(RM), repo_module(PM)
     types, two = cfg['types'], cfg['two']
-    x = [mk.real('x0'), mk.real('x1')]
-    y = [mk.real('y0'), mk.real('y1')]
-    if not (mk.assume(x[0] != x[1]) and mk.assume(y[0] != y[1])):
-        return
+    x = [mk.real('x%d' % i) for i in range(cfg.get('nx', 2))]
+    y = [mk.real('y%d' % i) for i in range(cfg.get('ny', 2))]
+    for g in (x, y):     # values are distinct within one grid
+        for i in range(len(g)):
+            for k in range(i + 1, len(g)):
+                if not mk.assume(g[i] != g[k]):
+                    return
     q1, q2 = ([1, 2], [2, 3]) if two else ([None], [None])
     dt = object if mk.sym else float
 
@@ -603,7 +632,7 @@ def scen_combine(mk, cfg, rep):
                 for k in range(len(qv)):
                     S.append_result(arb_result(
                         mk, Rm, '%s_%s_%d%d' % (tag, typ, i, k), typ, False,
-                        name=typ.lower()))
+                        name=typ.lower(), nmin=1))
         return S
 
     S1, S2 = mkset('S1', x, q1), mkset('S2', y, q2)
@@ -614,6 +643,7 @@ def scen_combine(mk, cfg, rep):
         for j in range(len(s1[typ])):
             rep.compare('combine|operand[S1.%s.%d]' % (typ, j), n1[typ][j],
                         s1[typ][j], FIELDS)
+        for j in range(len(s2[typ])):
             rep.compare('combine|operand[S2.%s.%d]' % (typ, j), n2[typ][j],
                         s2[typ][j], FIELDS)
     variations = U.params.get_unpacked_params_list()
@@ -630,8 +660,11 @@ def scen_combine(mk, cfg, rep):
             used1[i] += 1
         for i in i2:
             used2[i] += 1
-        rep('combine|variation-has-source[%d]' % j,
-            len(i1) <= 1 and len(i2) <= 1 and len(i1) + len(i2) >= 1)
+        # (with two unpacked parameters the union grid also holds
+        # combinations simulated in neither set: their result stays empty)
+        rep('combine|variation-sources[%d]' % j,
+            len(i1) <= 1 and len(i2) <= 1 and
+            (two or len(i1) + len(i2) >= 1))
         for typ in types:
             got_list = U[typ.lower()]
             if j >= len(got_list):
@@ -659,7 +692,7 @@ def scen_combine(mk, cfg, rep):
 
 
 # ---------------------------------------------------------------------------
-def _exc_key(exc, cls):
+def _exc_key(exc, cls, prop=PROPERTY):
     """<entry point> > <innermost /repo function> of an exception"""
     quals = []
     tb = exc.__traceback__
@@ -669,12 +702,32 @@ def _exc_key(exc, cls):
             quals.append(getattr(co, 'co_qualname', co.co_name))
         tb = tb.tb_next
     if not quals:
-        site = 'harness'
+        raise exc     # raised by the harness itself, not by /repo code
     elif len(quals) == 1 or quals[0] == quals[-1]:
         site = quals[0]
     else:
         site = '%s>%s' % (quals[0], quals[-1])
-    return '%s/%s/%s:raises-%s' % (PROPERTY, site, cls, type(exc).__name__)
+    return '%s/%s/%s:raises-%s' % (prop, site, cls, type(exc).__name__)
+
+
+class _IntObjNP(types.ModuleType):
+    """np facade for the results module during symbolic runs: the CHOICE
+    counter vector np.zeros(n, dtype=int) becomes an object array of exact
+    integer zeros so that it can hold symbolic integers."""
+
+    def __init__(self, base):
+        super().__init__('c06np')
+        self.__dict__['_base'] = base
+
+    def __getattr__(self, name):
+        return getattr(self.__dict__['_base'], name)
+
+    def zeros(self, shape, dtype=None, **kw):
+        if dtype is int:
+            out = np.empty(shape, dtype=object)
+            out.fill(0)
+            return out
+        return self.__dict__['_base'].zeros(shape, dtype=dtype, **kw)
 
 
 class _Base(Harness):
@@ -686,7 +739,9 @@ class _Base(Harness):
     site = ''
     assumptions = tuple(ASSUMPTIONS)
     stubs = ('module-global isinstance facade (a symbolic integer counts as '
-             'int, a symbolic real as float)', )
+             'int, a symbolic real as float)',
+             'np.zeros(n, dtype=int) -> object array of exact integer zeros '
+             '(CHOICE counters may then hold symbolic integers)')
     div_mode = 'fork'
 
     def cls(self, cfg):
@@ -697,7 +752,13 @@ class _Base(Harness):
             'types', [cfg.get('type', 'ALL')]))
 
     def sym(self, ctx, cfg):
-        type(self).scenario(SymVals(ctx), cfg, Reporter(ctx))
+        Rm = repo_module(RM)
+        old = Rm.np
+        Rm.np = _IntObjNP(old)
+        try:
+            type(self).scenario(SymVals(ctx), cfg, Reporter(ctx))
+        finally:
+            Rm.np = old
 
     def _run(self, cfg, mk):
         rep = Reporter()
@@ -725,8 +786,9 @@ class _Base(Harness):
     @staticmethod
     def _hit(name, rep, exc):
         if name.startswith('no-exception:'):
-            return exc is not None and type(exc).__name__ == name.split(
-                ':')[1]
+            # the obligation is "no exception escapes": any exception of the
+            # real run reproduces it (the key names the real exception)
+            return exc is not None
         return name in rep.failed
 
     def replay(self, cfg, name, model):
@@ -823,18 +885,18 @@ class Partitions(_Base):
     functions = (RM + ':Result.update', RM + ':Result.merge',
                  RM + ':Result.get_result', RM + ':Result.get_result_mean',
                  RM + ':Result.get_result_var')
-    bounds = ('sequence length 1..3 (quick) / 1..4 (thorough) of symbolic '
+    bounds = ('sequence length 1..3 (quick) / 1..5 (thorough; CHOICE 1..4) of symbolic '
               'observations; every composition into contiguous chunks x every '
               'binary merge tree x {merge in place, merge into a fresh empty '
               'result}; 3 choices (symbolic index, case split)')
-    outside = ('sequences longer than 4 (covered by the inductive laws)',
+    outside = ('sequences longer than 5 (covered by the inductive laws)',
                'empty chunks for MISCTYPE')
     n_concrete = 0
 
     def configs(self, tier):
-        Ls = (1, 2, 3) if tier == 'quick' else (1, 2, 3, 4)
+        Ls = (1, 2, 3) if tier == 'quick' else (1, 2, 3, 4, 5)
         return [dict(type=t, acc=a, L=L) for t in TYPES for a in (False, True)
-                for L in Ls]
+                for L in Ls if not (t == 'CHOICE' and L > 4)]
 
     def concrete(self, cfg, rng):
         """public API on plain numbers against an exact oracle"""
@@ -948,12 +1010,15 @@ class Combine(_Base):
                  PM + ':SimulationParameters.get_pack_indexes',
                  PM + ':SimulationParameters.get_unpacked_params_list',
                  RM + ':Result.merge')
-    bounds = ('unpacked parameter p with 2+2 symbolic real values (distinct '
+    bounds = ('unpacked parameter p with 2+2 (thorough also 3+2, 1+3) '
+              'symbolic real values (distinct '
               'within a grid; overlaps between the grids by forking), fixed '
               'parameter f; thorough: additionally a second unpacked parameter '
               'q=[1,2] / [2,3]; results of one type per set in arbitrary '
-              'symbolic states')
-    outside = ('grids with more than 2 symbolic values per parameter',
+              'symbolic states with num_updates >= 1')
+    outside = ('grids with more than 3 symbolic values per parameter',
+               'never-updated results inside the combined sets (the laws '
+               'harness covers num_updates = 0)',
                'accumulated lists of combined results (the fresh result '
                'created by combine does not accumulate)')
     n_concrete = 6
@@ -967,6 +1032,9 @@ class Combine(_Base):
         if tier != 'quick':
             out += [dict(types=[t], two=True) for t in TYPES]
             out += [dict(types=['SUM', 'RATIO', 'MISC'], two=False)]
+            out += [dict(types=[t], two=False, nx=3, ny=2)
+                    for t in ('SUM', 'RATIO', 'CHOICE')]
+            out += [dict(types=['RATIO'], two=False, nx=1, ny=3)]
         return out
 
     def concrete(self, cfg, rng):
@@ -1003,7 +1071,7 @@ MANIFEST = dict(
     'states (all four types, accumulation on/off), which give grouping '
     'independence for histories of any length; (ii) directly all contiguous '
     'partitions x merge trees of symbolic observation sequences of length '
-    '<=3 (quick) / <=4 (thorough) against one accumulating object and the '
+    '<=3 (quick) / <=5 (thorough; choice results <=4) against one accumulating object and the '
     'definition (value, total, update count, mean, variance as exact rational '
     'functions); (iii) set-level merges into empty/non-empty sets in both '
     'groupings and combine over 2+2 symbolic parameter values with overlaps '
